@@ -242,6 +242,18 @@ func (c *Conn) SetReadDeadline(t time.Time) error {
 	return err
 }
 
+// SetDeadline sets both deadlines; the read part is recorded like SetReadDeadline.
+func (c *Conn) SetDeadline(t time.Time) error {
+	err := c.Conn.SetDeadline(t)
+	c.mu.Lock()
+	if err == nil {
+		c.readDL = t
+	}
+	c.mu.Unlock()
+	c.log(Event{Kind: SetReadDeadline, Err: errStr(err), Deadline: t})
+	return err
+}
+
 // SetWriteDeadline may fail by injection.
 func (c *Conn) SetWriteDeadline(t time.Time) error {
 	if f := c.hit(SetWriteDeadline); f != nil {
@@ -340,6 +352,19 @@ func (c *Conn) ArmedAfterLastWrite() (armed bool, deadline, writeAt time.Time, w
 		}
 	}
 	return false, time.Time{}, writeAt, true
+}
+
+// LastArm returns the deadline asked for by the latest successful non-zero
+// SetReadDeadline call and the moment that call was made.
+func (c *Conn) LastArm() (deadline, at time.Time, ok bool) {
+	c.mu.Lock()
+	defer c.mu.Unlock()
+	for i := len(c.events) - 1; i >= 0; i-- {
+		if e := c.events[i]; e.Kind == SetReadDeadline && e.Err == "" && !e.Deadline.IsZero() {
+			return e.Deadline, c.start.Add(e.T), true
+		}
+	}
+	return time.Time{}, time.Time{}, false
 }
 
 // WritesOKAfter counts the writes that transferred bytes successfully and
